@@ -180,6 +180,16 @@ func genJSON(o *hlib.Out, r *hlib.Rand, thorough bool) {
 			vals = append(vals, v.String(), new(big.Int).Neg(v).String())
 		}
 	}
+	// negative big integers of 64-bit magnitude: [-(2^64-1), -2^63] and neighbours
+	lo := new(big.Int).Lsh(big.NewInt(1), 63)
+	for i := 0; i < 24; i++ {
+		v := new(big.Int).SetUint64(r.U64() | 1<<63)
+		if i%4 == 0 {
+			v = new(big.Int).SetUint64(r.U64() >> uint(1+r.Intn(40)))
+			v.Add(v, lo)
+		}
+		vals = append(vals, new(big.Int).Neg(v).String(), v.String())
+	}
 	// every escape class of encodeString
 	var all strings.Builder
 	for c := 0; c < 0x80; c++ {
